@@ -72,7 +72,10 @@ fn main() {
         "delta-log" => delta::run_log(seed, cases, &mut sink),
         "overflow" => overflow::run(seed, cases, &mut sink),
         "leafupd" => leafupd::run(seed, cases, &mut sink),
-        "walker" => walker::run(seed, cases, &mut sink),
+        "walker" => {
+            let focus = arg(&args, "--focus").unwrap_or_else(|| "all".into());
+            walker::run(seed, cases, &focus, &mut sink)
+        }
         "core-pp" => core_pp::run(seed, cases, &mut sink),
         "core-mp" => core_mp::run(seed, cases, &mut sink),
         "core-mp-corpus" => {
